@@ -349,6 +349,7 @@ func genShadowK(r *rand.Rand, regOnly bool, retShadow bool) cpuCase {
 		l := g.label()
 		c := g.reg()
 		slow := r.Intn(2) == 0
+		direct := false
 		if retShadow {
 			slow = true
 		}
@@ -356,16 +357,22 @@ func genShadowK(r *rand.Rand, regOnly bool, retShadow bool) cpuCase {
 			// a chain of multiplications delays the condition a little
 			g.emit("mul %s, %s, %s", c, g.srcReg(), g.srcReg())
 			g.emit("sub %s, %s, %s", c, c, c)
+		} else if slow && retShadow && r.Intn(2) == 0 {
+			// the branch reads the loaded value itself (issued with forwarding right behind the load); taken or not by data
+			g.emit("lw %s, %d(%s)", c, r.Intn(48)*4, g.breg())
+			g.emit("%s %s, %s", []string{"bnez", "beqz", "bnez"}[r.Intn(3)], c, l)
+			direct = true
 		} else if slow {
 			g.emit("lw %s, %d(%s)", c, r.Intn(48)*4, g.breg())
 			g.emit("sub %s, %s, %s", c, c, c) // c = 0, but only known after the load
 		} else {
 			g.emit("li %s, 0", c)
 		}
-		switch r.Intn(3) {
-		case 0:
+		switch sel := r.Intn(3); {
+		case direct:
+		case sel == 0:
 			g.emit("beqz %s, %s", c, l)
-		case 1:
+		case sel == 1:
 			g.emit("beq %s, zero, %s", c, l)
 		default:
 			if slow {
